@@ -51,16 +51,18 @@ Definition dist_prev (kt k : Z) : Z := if kt <=? k then k - kt else k + 1 + (T -
 
 Lemma seek_loop_next_ok v kt : 0 <= kt < T -> bp ts kt <= v < bp ts (kt + 1) ->
   forall fuel t, tree_ok ts t -> Z.of_nat fuel > dist_next kt (t_index t) ->
-  exists t', seek_loop fuel (tree_next core ts) (Fin v) t = Ok t' /\ tree_ok ts t' /\ t_index t' = kt.
+  exists t', seek_loop fuel (tree_next core ts) (Fin v) t = Ok t' /\ tree_ok ts t' /\ t_index t' = kt /\
+             (ne_ok ts t -> ne_ok ts t').
 Proof.
   intros Hk Hv. induction fuel as [|f IH]; intros t H Hf.
   - exfalso. pose proof (tree_ok_index t H). unfold dist_next in Hf. destruct (t_index t <=? kt) eqn:E; lia.
   - cbn [seek_loop]. destruct (in_interval t (Fin v)) eqn:E.
-    + exists t. split; [reflexivity|]. split; [exact H|]. apply (in_interval_iff t v kt H Hk Hv). exact E.
+    + exists t. split; [reflexivity|]. split; [exact H|]. split; [|auto]. apply (in_interval_iff t v kt H Hk Hv). exact E.
     + assert (NE : t_index t <> kt).
       { intros A. apply (in_interval_iff t v kt H Hk Hv) in A. congruence. }
-      destruct (tree_next_ok ts V t H) as (t1 & r & S & H1 & I1). rewrite S. cbn [bind].
-      apply IH; [exact H1|]. rewrite I1. pose proof (tree_ok_index t H).
+      destruct (tree_next_ok ts V t H) as (t1 & r & S & H1 & I1 & N1). rewrite S. cbn [bind].
+      destruct (IH t1 H1) as (t' & S' & H' & I' & N'); [|exists t'; split; [exact S'|]; split; [exact H'|]; split; [exact I'|auto]].
+      rewrite I1. pose proof (tree_ok_index t H).
       unfold dist_next, nxt in *. fold T.
       destruct (t_index t <=? kt) eqn:E1; destruct (t_index t + 1 =? T) eqn:E2;
         try (destruct (-1 <=? kt) eqn:E3); try (destruct (t_index t + 1 <=? kt) eqn:E4); lia.
@@ -68,16 +70,18 @@ Qed.
 
 Lemma seek_loop_prev_ok v kt : 0 <= kt < T -> bp ts kt <= v < bp ts (kt + 1) ->
   forall fuel t, tree_ok ts t -> Z.of_nat fuel > dist_prev kt (t_index t) ->
-  exists t', seek_loop fuel (tree_prev core ts) (Fin v) t = Ok t' /\ tree_ok ts t' /\ t_index t' = kt.
+  exists t', seek_loop fuel (tree_prev core ts) (Fin v) t = Ok t' /\ tree_ok ts t' /\ t_index t' = kt /\
+             (ne_ok ts t -> ne_ok ts t').
 Proof.
   intros Hk Hv. induction fuel as [|f IH]; intros t H Hf.
   - exfalso. pose proof (tree_ok_index t H). unfold dist_prev in Hf. destruct (kt <=? t_index t) eqn:E; lia.
   - cbn [seek_loop]. destruct (in_interval t (Fin v)) eqn:E.
-    + exists t. split; [reflexivity|]. split; [exact H|]. apply (in_interval_iff t v kt H Hk Hv). exact E.
+    + exists t. split; [reflexivity|]. split; [exact H|]. split; [|auto]. apply (in_interval_iff t v kt H Hk Hv). exact E.
     + assert (NE : t_index t <> kt).
       { intros A. apply (in_interval_iff t v kt H Hk Hv) in A. congruence. }
-      destruct (tree_prev_ok ts V t H) as (t1 & r & S & H1 & I1). rewrite S. cbn [bind].
-      apply IH; [exact H1|]. rewrite I1. pose proof (tree_ok_index t H).
+      destruct (tree_prev_ok ts V t H) as (t1 & r & S & H1 & I1 & N1). rewrite S. cbn [bind].
+      destruct (IH t1 H1) as (t' & S' & H' & I' & N'); [|exists t'; split; [exact S'|]; split; [exact H'|]; split; [exact I'|auto]].
+      rewrite I1. pose proof (tree_ok_index t H).
       unfold dist_prev, prv in *. fold T.
       destruct (kt <=? t_index t) eqn:E1; destruct (t_index t =? -1) eqn:E2;
         try (destruct (kt <=? T - 1) eqn:E3); try (destruct (kt <=? t_index t - 1) eqn:E4); lia.
@@ -92,7 +96,8 @@ Qed.
 (* tsk_tree_seek_linear: whichever direction the distance comparison picks *)
 Lemma tree_seek_linear_ok fuel t v : tree_ok ts t -> 0 <= v < ts_L ts -> Z.of_nat fuel > T ->
   exists t', tree_seek_linear fuel core ts t (Fin v) = Ok t' /\ tree_ok ts t' /\
-             0 <= t_index t' < T /\ bp ts (t_index t') <= v < bp ts (t_index t' + 1).
+             (0 <= t_index t' < T /\ bp ts (t_index t') <= v < bp ts (t_index t' + 1)) /\
+             (ne_ok ts t -> ne_ok ts t').
 Proof.
   intros H Hv Hf.
   destruct (seek_index_calc ts V v Hv) as (kt & Hk & Hb & _).
@@ -101,19 +106,20 @@ Proof.
   unfold tree_seek_linear.
   destruct (x_lt_z (Fin v) (t_left t)); cbv iota beta;
     match goal with |- context [if ?c then _ else _] => destruct c end.
-  - destruct (seek_loop_next_ok v kt Hk Hb fuel t H ltac:(lia)) as (t' & S & H' & I').
+  - destruct (seek_loop_next_ok v kt Hk Hb fuel t H ltac:(lia)) as (t' & S & H' & I' & N').
     exists t'. rewrite I'. auto.
-  - destruct (seek_loop_prev_ok v kt Hk Hb fuel t H ltac:(lia)) as (t' & S & H' & I').
+  - destruct (seek_loop_prev_ok v kt Hk Hb fuel t H ltac:(lia)) as (t' & S & H' & I' & N').
     exists t'. rewrite I'. auto.
-  - destruct (seek_loop_next_ok v kt Hk Hb fuel t H ltac:(lia)) as (t' & S & H' & I').
+  - destruct (seek_loop_next_ok v kt Hk Hb fuel t H ltac:(lia)) as (t' & S & H' & I' & N').
     exists t'. rewrite I'. auto.
-  - destruct (seek_loop_prev_ok v kt Hk Hb fuel t H ltac:(lia)) as (t' & S & H' & I').
+  - destruct (seek_loop_prev_ok v kt Hk Hb fuel t H ltac:(lia)) as (t' & S & H' & I' & N').
     exists t'. rewrite I'. auto.
 Qed.
 
 Lemma tree_seek_ok fuel t v : tree_ok ts t -> 0 <= v < ts_L ts -> Z.of_nat fuel > T ->
   exists t', tree_seek fuel core ts t (Fin v) = Ok t' /\ tree_ok ts t' /\
-             0 <= t_index t' < T /\ bp ts (t_index t') <= v < bp ts (t_index t' + 1).
+             (0 <= t_index t' < T /\ bp ts (t_index t') <= v < bp ts (t_index t' + 1)) /\
+             (ne_ok ts t -> ne_ok ts t').
 Proof.
   intros H Hv Hf. unfold tree_seek, x_lt_z, x_ge_z.
   replace ((v <? 0) || (ts_L ts <=? v)) with false by lia.
@@ -123,15 +129,16 @@ Proof.
 Qed.
 
 Lemma tree_seek_index_ok fuel t i : tree_ok ts t -> 0 <= i < T -> Z.of_nat fuel > T ->
-  exists t', tree_seek_index fuel core ts t i = Ok t' /\ tree_ok ts t' /\ t_index t' = i.
+  exists t', tree_seek_index fuel core ts t i = Ok t' /\ tree_ok ts t' /\ t_index t' = i /\
+             (ne_ok ts t -> ne_ok ts t').
 Proof.
   intros H Hi Hf. unfold tree_seek_index. fold T.
   replace ((i <? 0) || (T <=? i)) with false by lia.
   rewrite get_bp by (fold T; lia). cbn [bind].
   assert (Hv : 0 <= bp ts i < ts_L ts).
   { pose proof (bp_range ts V i ltac:(fold T; lia)). pose proof (bp_lt_L ts V i ltac:(fold T; lia)). lia. }
-  destruct (tree_seek_ok fuel t (bp ts i) H Hv Hf) as (t' & S & H' & K & B).
-  exists t'. split; [exact S|]. split; [exact H'|].
+  destruct (tree_seek_ok fuel t (bp ts i) H Hv Hf) as (t' & S & H' & (K & B) & N').
+  exists t'. split; [exact S|]. split; [exact H'|]. split; [|exact N'].
   apply (bp_unique (t_index t') i (bp ts i)); auto.
   pose proof (v_bp_strict ts V i (i + 1) ltac:(lia) ltac:(fold T; lia)). lia.
 Qed.
